@@ -22,8 +22,8 @@ var commonStub = []string{"Go map iteration order (seeded oracle at every rewrit
 
 func profC07(t *tape.Tape) model.Profile {
 	p := model.Profile{
-		PrefixTraps: t.Chance(1, 3),
-		Mods:        [2]int{2, 5}, Subs: [2]int{0, 3}, Typedefs: [2]int{0, 2}, Identities: [2]int{0, 1}, Groupings: [2]int{0, 3},
+		PrefixTraps: t.Chance(1, 3), Posix: t.Sub("posix").Chance(1, 4),
+		Mods: [2]int{2, 5}, Subs: [2]int{0, 3}, Typedefs: [2]int{0, 2}, Identities: [2]int{0, 1}, Groupings: [2]int{0, 3},
 		TopNodes: [2]int{1, 4}, Augments: [2]int{1, 10}, Deviations: [2]int{0, 0}, Depth: 3,
 		Invalid: []string{model.InvAugMissing, model.InvAugLeaf, model.InvAugCollision, model.InvAugCollisionOwn}, InvalidPct: 8, MaxInvalid: 1,
 		OrderTraps: true, Extras: t.Chance(1, 2),
@@ -50,8 +50,8 @@ func augmentCount(s *model.Scenario) int {
 
 func profC06(t *tape.Tape) model.Profile {
 	p := model.Profile{
-		PrefixTraps: t.Chance(1, 3),
-		Mods:        [2]int{1, 4}, Subs: [2]int{0, 2}, Typedefs: [2]int{1, 3}, Identities: [2]int{0, 2}, Groupings: [2]int{2, 5},
+		PrefixTraps: t.Chance(1, 3), Posix: t.Sub("posix").Chance(1, 4),
+		Mods: [2]int{1, 4}, Subs: [2]int{0, 2}, Typedefs: [2]int{1, 3}, Identities: [2]int{0, 2}, Groupings: [2]int{2, 5},
 		TopNodes: [2]int{2, 5}, Augments: [2]int{0, 3}, Deviations: [2]int{0, 4}, DevMods: [2]int{1, 2}, Depth: 4,
 		Invalid: []string{model.InvUnknownGrouping, model.InvUsesCycle}, InvalidPct: 4, MaxInvalid: 1,
 		UsesHeavy: true, Extras: t.Chance(1, 3),
@@ -87,8 +87,8 @@ func usesCount(s *model.Scenario) (uses int, reused bool) {
 
 func profC08(t *tape.Tape) model.Profile {
 	p := model.Profile{
-		PrefixTraps: t.Chance(1, 3),
-		Mods:        [2]int{1, 3}, Subs: [2]int{0, 1}, Typedefs: [2]int{0, 2}, Identities: [2]int{0, 1}, Groupings: [2]int{0, 2},
+		PrefixTraps: t.Chance(1, 3), Posix: t.Sub("posix").Chance(1, 4),
+		Mods: [2]int{1, 3}, Subs: [2]int{0, 1}, Typedefs: [2]int{0, 2}, Identities: [2]int{0, 1}, Groupings: [2]int{0, 2},
 		TopNodes: [2]int{2, 5}, Augments: [2]int{0, 2}, Deviations: [2]int{1, 6}, DevMods: [2]int{1, 3}, Depth: 3,
 		Invalid:    []string{model.InvDevMissing, model.InvDevAddDefault, model.InvDevDelDefault, model.InvDevDelOther, model.InvDevMinNonList, model.InvDevDelMin, model.InvDevBadType, model.InvDevUnknownKind},
 		InvalidPct: 10, MaxInvalid: 1, OrderTraps: true, Extras: t.Chance(1, 3),
@@ -206,8 +206,8 @@ func c08Frame(c *refCase, ms *yang.Modules, cp *model.Compiled, o *core.Outcome,
 
 func profC11(t *tape.Tape) model.Profile {
 	p := model.Profile{
-		PrefixTraps: t.Chance(1, 3),
-		Mods:        [2]int{1, 5}, Subs: [2]int{0, 3}, Typedefs: [2]int{0, 2}, Identities: [2]int{1, 6}, Groupings: [2]int{0, 1},
+		PrefixTraps: t.Chance(1, 3), Posix: t.Sub("posix").Chance(1, 4),
+		Mods: [2]int{1, 5}, Subs: [2]int{0, 3}, Typedefs: [2]int{0, 2}, Identities: [2]int{1, 6}, Groupings: [2]int{0, 1},
 		TopNodes: [2]int{1, 3}, Augments: [2]int{0, 1}, Deviations: [2]int{0, 0}, Depth: 2,
 		Invalid: []string{model.InvIdentityCycle, model.InvUndefinedBase}, InvalidPct: 25, MaxInvalid: 1, OrderTraps: true,
 	}
@@ -231,6 +231,11 @@ func c11Extra(c *refCase, ms *yang.Modules, cp *model.Compiled, o *core.Outcome,
 	known := map[*yang.Identity]bool{}
 	for _, set := range []map[string]*yang.Module{ms.Modules, ms.SubModules} {
 		for _, m := range dump.DistinctModules(set) {
+			if set[m.Name] != m {
+				// an older revision: the identities reported under a name are
+				// those of the latest revision
+				continue
+			}
 			e := yang.ToEntry(m)
 			for _, id := range e.Identities {
 				known[id] = true
